@@ -255,16 +255,18 @@ impl<H: Hasher> BatchMerkleProof<H> {
 
         let mut partial_tree_map = BTreeMap::new();
 
-        for (&i, leaf) in indexes.iter().zip(leaves.iter()) {
-            partial_tree_map.insert(i + (1 << (self.depth)), *leaf);
-        }
-
         let mut buf = [H::Digest::default(); 2];
         let mut v = BTreeMap::new();
 
         // replace odd indexes, offset, and sort in ascending order
         let original_indexes = indexes;
         let index_map = super::map_indexes(indexes, self.depth as usize)?;
+
+        // indexes and depth have been validated above, so the additions below cannot overflow
+        for (&i, leaf) in indexes.iter().zip(leaves.iter()) {
+            partial_tree_map.insert(i + (1 << (self.depth)), *leaf);
+        }
+
         let indexes = super::normalize_indexes(indexes);
         if indexes.len() != self.nodes.len() {
             return Err(MerkleTreeError::InvalidProof);
